@@ -33,6 +33,8 @@ def run(ctx, report):
     report.section("thresholds", thresholds, ctx, report, folder)
     report.section("EOC/EDM def-use", eoc_edm, ctx, report)
     report.section("doubling memory", doubling_memory, ctx, report)
+    from . import scc_timing_list
+    report.section("caption list timing", scc_timing_list.run, ctx, report, "3")
     report.not_decided += ["ordering of returned captions and start <= end for arbitrary streams",
                            "which captions a given stream yields (decoder state machine runs)"]
     report.assume("IEEE-754: the float products in _translate_time are within one ulp of the exact form")
